@@ -4,7 +4,6 @@ import vkit
 
 KEY_PTON4 = "inet-pton4-sscanf-accepts-sign-and-space"
 KEY_PTON6 = "inet-pton6-accepts-0x-and-trailing-colon"
-KEY_NTOP6 = "inet-ntop6-exact-fit-truncates"
 
 
 def known_pton(case, msg):
@@ -18,12 +17,6 @@ def known_pton(case, msg):
             return KEY_PTON4                  # the embedded IPv4 tail goes through the same sscanf
         if "0x" in t or (t.endswith(":") and not t.endswith("::")):
             return KEY_PTON6
-    return None
-
-
-def known_ntop(case, msg):
-    if case["af"] == 6 and case.get("_exactfit") and (".lens[%d]" % case["_exactfit"]) in msg:
-        return KEY_NTOP6
     return None
 
 
@@ -50,10 +43,10 @@ def run(tier, seed):
         recs, res = uc.gen(chk, "Inet", name, {"Mode": mode, "K": 0}, laws)
         cases = [{"op": "ntop", "af": af, "a": r["a"]} for r in recs]
         outs = uc.drive(cases)
-        exp, exact = [], []
+        exp = []
         for r, c, o in zip(recs, cases, outs):
             if not isinstance(o, dict) or "pl" not in o:
-                exp.append({}); exact.append(None); continue
+                exp.append({}); continue
             if o["pl"] != r["t"]:
                 raise vkit.InfraError("%s: the reference formatter disagrees with the platform's inet_ntop on %s: "
                                       "%r vs %r (specification error)" % (name, r["a"], uc.b2s(r["t"]), uc.b2s(o["pl"])))
@@ -62,21 +55,8 @@ def run(tier, seed):
             # exactly the full text, the platform parses it back to the address, a 46/16-byte buffer suffices
             lens = [{"_oneof": [None, full]} for _ in o["lens"]]
             lens[-1] = full
-            e2 = None
-            if af == 6 and full is not None and len(full) < len(lens):
-                # the exact-fit length (trigger of an open finding) is compared on its own, so that the
-                # finding cannot hide a difference at any other length / in the other observations
-                c["_exactfit"] = len(full)
-                e2 = {"lens": [{"_any": True}] * len(lens)}
-                e2["lens"] = list(e2["lens"]); e2["lens"][len(full)] = lens[len(full)]
-                lens[len(full)] = {"_any": True}
             exp.append({"back": r["a"], "lens": lens, "sprt": 1})
-            exact.append(e2)
-        uc.compare(chk, name, cases, exp, outs, known=known_ntop, nontrivial=lambda c: True)
-        sel = [i for i, e2 in enumerate(exact) if e2 is not None]
-        if sel:
-            uc.compare(chk, name + "_exactfit", [cases[i] for i in sel], [exact[i] for i in sel], [outs[i] for i in sel],
-                       known=known_ntop, nontrivial=lambda c: True)
+        uc.compare(chk, name, cases, exp, outs, nontrivial=lambda c: True)
         chk.cov.setdefault("corpus", {})[name] = {"addresses": len(recs), "buffer_lengths": 18 if af == 4 else 48}
         chk.sample({"gen": name, "address": recs[len(recs) // 2]["a"], "reference_text": uc.b2s(recs[len(recs) // 2]["t"])})
     # ---------------- socket address texts
